@@ -103,9 +103,19 @@ class Ctx:
                 seen.add(m.group(2))
             else:
                 out.append(ln)
-        missing = set(consts) - seen
-        if missing:
-            raise MachineryError(f"cfg {cfg} has no constants {missing}")
+        missing = sorted(set(consts) - seen)
+        if missing:        # not mentioned in the cfg: a definition of the module that this run substitutes (D <- DAlt)
+            extra = []
+            for k in missing:
+                val = str(consts[k])
+                if not (re.fullmatch(r"[A-Za-z_]\w*", val) and val not in ("TRUE", "FALSE")):
+                    raise MachineryError(f"cfg {cfg} has no constant {k}")
+                extra.append(f"  {k} <- {val}")
+            idx = next((i for i, ln in enumerate(out) if ln.strip().startswith("CONSTANT")), None)
+            if idx is None:
+                out = ["CONSTANTS", *extra, *out]
+            else:
+                out[idx + 1:idx + 1] = extra
         name = cfg.replace(".cfg", f"__{suffix}.cfg")
         (self.specdir / name).write_text("\n".join(out) + "\n")
         return name
@@ -126,7 +136,10 @@ class Ctx:
             cmd.append(f"-Xmx{heap}")
         cmd += ["-cp", "/opt/veriftools/tla/tla2tools.jar:/opt/veriftools/tla/CommunityModules-deps.jar",
                 "tlc2.TLC", "-workers", str(workers or NCPU), "-metadir", str(meta),
-                "-noGenerateSpecTE", "-config", cfg]
+                "-noGenerateSpecTE", "-config", cfg,
+                # without a fixed fingerprint polynomial TLC draws one per run, and RandomElement (re-seeded from state
+                # fingerprints) then samples differently under the same -seed: fix it so that VERIF_SEED decides
+                "-fp", str(self.seed % 127)]
         dumpfile = None
         if dump:
             dumpfile = self.scratch / f"dump-{tag}"
@@ -186,6 +199,7 @@ class Ctx:
         if not r.get("dumpfile"):
             raise MachineryError(f"no dump from {module}/{cfg}:\n{r['out'][-2000:]}")
         states = [to_py_state(s) for s in parse_dump(r["dumpfile"].read_text())]
+        states.sort(key=lambda c: json.dumps(c, sort_keys=True, default=str))
         r["dumpfile"].unlink()
         self.mc_states += r.get("distinct", 0)
         self.mc_transitions += r.get("generated", 0)
@@ -208,6 +222,9 @@ class Ctx:
                              "generated": r.get("generated"), "role": "gen", "wall_s": round(r["wall"], 2)})
         if r["violated"]:
             raise MachineryError(f"generator {module}/{cfg} violated {r['violated']}")
+        # TLC's workers print in an order that differs from run to run: canonical order, so that the seed a case gets
+        # (and with it names, contents, sampled subsets) is a function of VERIF_SEED alone
+        cases.sort(key=lambda c: json.dumps(c, sort_keys=True))
         self.log(f"gen {module}/{cfg}: {len(cases)} cases ({r['wall']:.1f}s)")
         return cases
 
